@@ -236,7 +236,20 @@ def gen_table(r, k):
             ops.append(("set", m))
             ctx.resize(m)
         pool = []
-        for _ in range(r.randrange(3, 14)):
+        big = r.random() < 0.12
+        if big:
+            # many small entries (more than 61, so that negative-index wraparound of a
+            # Python sequence would land inside the dynamic table), then boundary lookups
+            ctx.resize(4096)
+            ops[:] = [("set", 4096)]
+            for i in range(r.choice([62, 63, 80, 113])):
+                n, v = b"k", b"%03d" % i
+                ctx.insert(n, v)
+                ops.append(("add", n, v))
+            tags.append("many-entries")
+            for i in (0, -1, -61, -62, 61 + len(ctx.dyn), 62 + len(ctx.dyn), 63 + len(ctx.dyn), 1, 61, 62):
+                ops.append(("get", i))
+        for _ in range(0 if big else r.randrange(3, 14)):
             kk = r.random()
             cur = sum(S.esize(n, v) for n, v in ctx.dyn)
             free = ctx.size - cur
@@ -473,6 +486,21 @@ def gen_dec(r, k):
     return cases
 
 
+def gen_bigtable(r, k):
+    """decoder with more than 61 dynamic entries, then index zero, the last entry, one past it"""
+    cases = []
+    for ci in range(k):
+        d = "t%d" % ci
+        n = r.choice([62, 63, 70, 100, 113])
+        fill = b"".join(S.rep_literal("inc", b"k", b"%03d" % i) for i in range(n))
+        cmds = ["dnew %s %s" % (d, zs(2 ** 30)), "ddec %s 1 %s" % (d, hx(fill))]
+        for probe in (b"\x80", b"\x82\x80", S.rep_indexed(61 + n), S.rep_indexed(62 + n), S.rep_literal("no", b"", b"v", 0 if False else 62 + n),
+                      S.rep_literal("inc", b"", b"v", 61 + n), b"\x40\x00\x00", b"\x00\x00\x00"):
+            cmds.append("ddec %s %d %s" % (d, r.randrange(2), hx(probe)))
+        cases.append({"family": "dec", "cmds": cmds, "meta": {}, "tags": ["many-entries", "defect:index-zero", "dynamic-index"]})
+    return cases
+
+
 def gen_bomb(r, k):
     """C07: one table-filling entry referenced many times; limits at the exact size +-1"""
     cases = []
@@ -553,7 +581,12 @@ def gen_pair(r, k):
     return cases
 
 
-FAMILIES = {"int": gen_int, "huff": gen_huff, "table": gen_table, "dec": gen_dec, "bomb": gen_bomb, "pair": gen_pair}
+def gen_dec_all(r, k):
+    kb = max(1, k // 25)
+    return gen_dec(r, k - kb) + gen_bigtable(r, kb)
+
+
+FAMILIES = {"int": gen_int, "huff": gen_huff, "table": gen_table, "dec": gen_dec_all, "bomb": gen_bomb, "pair": gen_pair}
 
 
 # ------------------------------------------------------------------ API forms (C18)
